@@ -325,6 +325,23 @@ func (g *pgen) genStage(i int) *Stage {
 				s.Outs[j].Help = rapid.SampledFrom([]string{"the output", "tab\there", "q\"q"}).Draw(t, "helpText")
 			}
 		}
+		if !g.cfg.NoFiles && rapid.IntRange(0, 2).Draw(t, "fileOuts") == 0 {
+			// file outputs and a retain list (possibly naming one twice)
+			nf := rapid.IntRange(1, 3).Draw(t, "nFileOuts")
+			var names []string
+			for j := 0; j < nf; j++ {
+				ft := "file"
+				if len(g.u.FileTypes) > 0 && rapid.Bool().Draw(t, "userFileType") {
+					ft = rapid.SampledFrom(g.u.FileTypes).Draw(t, "fileType")
+				}
+				n := fmt.Sprintf("fout%d", j)
+				s.Outs = append(s.Outs, Param{Name: n, T: Ty{Base: ft}})
+				names = append(names, n)
+			}
+			for j, k := 0, rapid.IntRange(0, 4).Draw(t, "nRetain"); j < k; j++ {
+				s.Retain = append(s.Retain, rapid.SampledFrom(names).Draw(t, "retain"))
+			}
+		}
 	}
 	if g.cfg.SplitStage && rapid.IntRange(0, 2).Draw(t, "split") == 0 {
 		s.Split = true
